@@ -13,6 +13,7 @@ import (
 	elysapp "github.com/elys-network/elys/app"
 	lptypes "github.com/elys-network/elys/x/leveragelp/types"
 	mctypes "github.com/elys-network/elys/x/masterchef/types"
+	oracletypes "github.com/elys-network/elys/x/oracle/types"
 	paramtypes "github.com/elys-network/elys/x/parameter/types"
 )
 
@@ -140,8 +141,63 @@ var ProfileC11 = &Profile{
 	},
 }
 
+// c12ExtraOps: the lock-up clause for leveraged positions. When a keyed owner has a position whose
+// committed shares are still under the one-hour lock, now and then the price of the pool's traded asset
+// crashes (the position turns unhealthy) and the owner tries to close it himself in the same block –
+// before the sweep of the next block can liquidate it.
+func c12ExtraOps(h *History, g *G) []*Op {
+	s := g.S
+	horizon := uint64(s.Time.Unix()) + 3600
+	var cands []lptypes.Position
+	for _, pos := range s.LPPositions {
+		if h.W.ByAddr[pos.Address] == nil {
+			continue
+		}
+		pa := pos.GetPositionAddress().String()
+		for _, c := range s.Commitments {
+			if c.Creator != pa {
+				continue
+			}
+			for _, ct := range c.CommittedTokens {
+				for _, l := range ct.Lockups {
+					if l.UnlockTimestamp > uint64(s.Time.Unix())+10 && l.UnlockTimestamp <= horizon+10 {
+						cands = append(cands, pos)
+					}
+				}
+			}
+		}
+	}
+	if len(cands) == 0 || g.Int("c12/crash?", 0, 2) != 0 {
+		return nil
+	}
+	pos := cands[g.Pick("c12/pos", len(cands))]
+	owner := h.W.ByAddr[pos.Address]
+	pool := s.Pool(pos.AmmPoolId)
+	if pool == nil || g.Busy[owner.Addr.String()] {
+		return nil
+	}
+	var ops []*Op
+	for _, a := range pool.PoolAssets {
+		if a.Token.Denom == paramtypes.BaseCurrency {
+			continue
+		}
+		cur := g.priceOf(a.Token.Denom)
+		if !cur.IsPositive() {
+			continue
+		}
+		np := cur.MulInt64(int64(100 - g.Int("c12/crash", 25, 70))).QuoInt64(100)
+		f := h.W.Feeder
+		ops = append(ops, &Op{Signer: f, Kind: "c12.crash_feed", Msg: &oracletypes.MsgFeedPrice{Provider: f.Addr.String(),
+			FeedPrice: oracletypes.FeedPrice{Asset: displayOf(a.Token.Denom), Price: np, Source: "elys"}}})
+	}
+	g.Busy[owner.Addr.String()] = true
+	h.Labels["c12-crash-then-owner-close"]++
+	ops = append(ops, &Op{Signer: owner, Kind: "c12.owner_close_under_lock", Msg: &lptypes.MsgClose{Creator: owner.Addr.String(), Id: pos.Id, LpAmount: pos.LeveragedLpAmount}})
+	return ops
+}
+
 var ProfileC12 = &Profile{
-	ID: "C12", Name: "commitments", MinBlocks: 5, MaxBlocks: 40, MaxTxs: 5, Spec: specDefault, Check: CheckC12,
+	ID: "C12", Name: "commitments", MinBlocks: 5, MaxBlocks: 40, MaxTxs: 5, Spec: specLending, Check: CheckC12, ExtraOps: c12ExtraOps,
 	Weights: map[string]int{"amm.join": 12, "amm.exit": 12, "stablestake.bond": 6, "stablestake.unbond": 5, "leveragelp.open": 6, "leveragelp.close": 5, "leveragelp.close_positions": 2,
 		"masterchef.claim": 10, "commitment.commit_claimed": 8, "commitment.uncommit": 8, "commitment.stake": 5, "commitment.unstake": 4, "estaking.withdraw_rewards": 2, "commitment.vest_liquid": 3, "commitment.vest": 5, "commitment.cancel_vest": 3, "commitment.claim_vesting": 3, "commitment.vest_now": 1,
 		"oracle.feed_price": 4, "amm.swap_in": 6},
